@@ -98,8 +98,8 @@ func liveCase(prop, engine string, weight int, o storeworld.LiveOpts) Case {
 
 // Cases lists every (property, engine) pair.
 var Cases = []Case{
-	seqCase("C02", "dbworld-seq", 1, dbworld.Profile{DiskFaults: true, HugeValues: true, Soak: true, MaxOps: 40, MaxNames: 3,
-		Oracles: orc("result", "list", "state", "open")}),
+	seqCase("C02", "dbworld-seq", 1, dbworld.Profile{DiskFaults: true, HugeValues: true, Soak: true, RestartMode: 3, MaxOps: 40, MaxNames: 3,
+		Oracles: orc("result", "list", "state", "open", "restart")}),
 	seqCase("C01", "dbworld-acl", 1, dbworld.Profile{Restricted: 3, HTTPMode: 1, RuleChanges: true, AuditFaults: true, Dashboard: true, MaxOps: 60, MaxNames: 4,
 		Oracles: orc("denied", "denied-identical", "result", "list", "state", "open")}),
 	seqCase("C03", "dbworld-restart", 1, dbworld.Profile{RestartMode: 1, Golden: true, LaxModes: true, DiskFaults: true, Symlinks: true, MaxOps: 30, MaxNames: 3,
@@ -118,6 +118,7 @@ var Cases = []Case{
 	concCase("C06", "dbworld-conc-free", 1, true, orc("audit-file")),
 	concCase("C06", "dbworld-conc", 1, false, orc("audit-sync", "deadlock")),
 	concCase("C09", "dbworld-conc", 1, false, orc("linearizable", "deadlock")),
+	concCase("C09", "dbworld-conc-free", 1, true, orc("linearizable", "deadlock")),
 	concCase("C03", "dbworld-conc-restart", 1, false, orc("linearizable", "deadlock", "disk-equals-served")),
 	concCase("C04", "dbworld-conc-disk", 1, false, orc("linearizable", "deadlock", "disk-equals-served")),
 	{Prop: "C17", Engine: "backupworld", Weight: 1,
@@ -125,6 +126,13 @@ var Cases = []Case{
 		Stub: []string{"S3 endpoint (in-memory bucket as the SDK's HTTPClient)", "goroutine scheduler (baton at database-lock and upload park points)"},
 		Run: func(s *kernel.Sim) Outcome {
 			w := backupworld.Run(s)
+			return Outcome{Trace: w.Trace, Nontrivial: len(w.Bucket.Uploads) > 0, Ops: w.Ops + len(w.Bucket.Uploads)}
+		}},
+	{Prop: "C05", Engine: "backupworld-kek", Weight: 1,
+		Real: []string{"server/backup.go (periodicBackup, doBackup)", "db (real file on tmpfs)", "aws-sdk-go-v2 s3 client"},
+		Stub: []string{"S3 endpoint (in-memory bucket)", "key service (in-process key with a call counter and an outage switch)"},
+		Run: func(s *kernel.Sim) Outcome {
+			w := backupworld.RunFor(s, "C05", map[string]bool{"kek": true, "converge": true})
 			return Outcome{Trace: w.Trace, Nontrivial: len(w.Bucket.Uploads) > 0, Ops: w.Ops + len(w.Bucket.Uploads)}
 		}},
 	storeCase("C10", "storeworld-ctor", 1, storeworld.RunC10),
@@ -136,6 +144,7 @@ var Cases = []Case{
 	storeCase("C11", "storeworld-cadence", 1, storeworld.RunC11Cadence),
 	storeCase("C11", "storeworld-many", 1, func(s *kernel.Sim) *storeworld.World { return storeworld.RunManyTwin(s, "C11") }),
 	storeCase("C13", "storeworld-corrupt", 1, storeworld.RunC13Corrupt),
+	storeCase("C13", "storeworld-many", 1, func(s *kernel.Sim) *storeworld.World { return storeworld.RunManyTwin(s, "C13") }),
 	liveCase("C12", "storeworld-live", 3, storeworld.LiveOpts{Lookup: true, Expiry: true, SvcFaults: true, Readers: true, Close: true,
 		Oracles: orc("read-value", "read-order", "read-blocks", "read-after-poll")}),
 	storeCase("C12", "storeworld-corrupt", 1, func(s *kernel.Sim) *storeworld.World { return storeworld.RunCorrupt(s, "C12") }),
